@@ -9,7 +9,7 @@
    comparison made just before them, and the proof uses what a successful comparison says about the pairs of fields and elements.
    PARTIAL: "a rejected store leaves the target's previous value intact" is proved for the assignment channel's store sequence
    (C05_failed_store_no_effect); for argument binding, RETURN and INPUT it is compared by the correspondence. *)
-From PE2 Require Import Eval Run Lemmas_Store Lemmas_Out Lemmas_DeepCopy Lemmas_ConstLogic Lemmas_ConstThm.
+From PE2 Require Import Eval Run Lemmas_Store Lemmas_Out Lemmas_DeepCopy Lemmas_ConstLogic Lemmas_ConstThm Lemmas_IoStates.
 Local Open Scope Z_scope.
 
 (* implicitCast always succeeds, keeps tag and payload in agreement, and makes the value's type equal to
@@ -98,3 +98,15 @@ Print Assumptions C05_invariant_holds_initially.
 Theorem C05_invariant_is_kept : forall ped repl lim fuel bl c s, Inv s -> Inv (snd (run_block ped repl lim fuel bl c s)).
 Proof. intros ped repl lim fuel bl c s H. exact (proj1 (run_block_keeps_constants ped repl lim fuel bl c s H)). Qed.
 Print Assumptions C05_invariant_is_kept.
+
+(* INPUT v : the typed line is converted by the variable's type (INTEGER and REAL by the numeric conversions, BOOLEAN as the test
+   for "TRUE", CHAR as the first character, STRING verbatim) and stored in v; the input advances by that line; nothing else
+   changes.  v is any target (name, array element, field, dereference) that resolves to an existing variable without touching the
+   state; for an enumerated, pointer, record or DATE target input_value gives None: INPUT is then a runtime error *)
+Theorem C05_input_stores_the_line_converted_by_type : forall ped repl lim fuel t r c s id cl line eof s1 v,
+  ev_resolve (evs_at ped repl lim (S fuel)) r c s = (Ok (HVar id), s) -> nm_get id (s_cells s) = Some cl -> c_const cl = false ->
+  read_line s = (Ok (line, eof), s1) -> input_value (dk (c_type cl)) line = Some v ->
+  ev_eval (evs_at ped repl lim (S (S fuel))) (NInput t r) c s =
+    (Ok res_none, set_cells (nm_put id (mkCell (c_name cl) (c_type cl) (c_const cl) (c_owner cl) v) (s_cells s1)) s1).
+Proof. exact input_stores_the_converted_line. Qed.
+Print Assumptions C05_input_stores_the_line_converted_by_type.
